@@ -38,9 +38,9 @@ Print Assumptions C06_passes_compose.
 Example C06_example :
   let adv := fun g : N => 462%Z in
   let sl := fun g => mkslot g 462 0 in
-  let r1 := mkrule 0 [[67]; [68]]%N [[APutGlyph 69]; [ADelete]] in
-  let r2 := mkrule 0 [[70]]%N [[AInsert 67; ASetAdv 1234]] in
-  let r3 := mkrule 0 [[67]]%N [[APutGlyph 71]] in
+  let r1 := mkrule 0 [[67]; [68]]%N [[APutGlyph 69]; [ADelete]] None in
+  let r2 := mkrule 0 [[70]]%N [[AInsert 67; ASetAdv 1234]] None in
+  let r3 := mkrule 0 [[67]]%N [[APutGlyph 71]] (Some (mkcon 0 CLt 1000)) in
   map s_gid (run_passes adv [[r3; r1; r2]] (map sl [67; 68; 70; 67; 67; 68]%N)) = [69; 67; 70; 71; 69]%N
   /\ origins (run_passes adv [[r3; r1; r2]] (map sl [67; 68; 70]%N)) 0 = [0; 462; 924]%Z.
 Proof. vm_compute. split; reflexivity. Qed.
